@@ -87,6 +87,11 @@ def case_text(cid, rr, ce):
         if l != base + tid - 1:
             return None, "worker %d first try_locks lock %d, expected its own queue lock %d" % (tid - 1, l, base + tid - 1)
     state = base + n
+    # the log's own thread numbers (field t) -> scheduler thread ids (field tid of the scheduling records)
+    tmap = {rec["t"]: int(rec["tid"]) for rec in rr.records if rec["kind"] == "sched"}
+
+    def worker(rec):
+        return tmap[rec["t"]] - 1
     for rec in rr.records:
         k = rec["kind"]
         if k == "sched":
@@ -122,16 +127,16 @@ def case_text(cid, rr, ce):
         elif k == "piece_begin":
             if rec["piece"] not in keys:
                 return None, "piece scope for an unknown piece %s" % rec["piece"]
-            lines.append("ev %d begin %d" % (int(rec["t"]) - 1, keys[rec["piece"]]))
+            lines.append("ev %d begin %d" % (worker(rec), keys[rec["piece"]]))
         elif k == "piece_end":
-            lines.append("ev %d end %d" % (int(rec["t"]) - 1, keys[rec["piece"]]))
+            lines.append("ev %d end %d" % (worker(rec), keys[rec["piece"]]))
         elif k == "queues" and rec.get("tag") == "rebalance":
             try:
                 qs = parse_queue_dump(rec["q"], keys)
             except KeyError as ex:
                 return None, "queue dump names an unknown piece %s" % ex
             full = qs + [[] for _ in range(n - len(qs))]
-            lines.append("ev %d queues %s %s" % (int(rec["t"]) - 1, fmt_list(order_witness(qs, table)), fmt_queues(full)))
+            lines.append("ev %d queues %s %s" % (worker(rec), fmt_list(order_witness(qs, table)), fmt_queues(full)))
     lines.append("end")
     return "\n".join(lines) + "\n", None
 
